@@ -831,17 +831,30 @@ impl<'a> Sem<'a> {
                     }
                     0 | 1 | 2 => {
                         let k = 1 + self.rng.below(3);
+                        let literal_start = self.here();
                         self.w("[");
+                        let untyped_before = self.untyped_uses;
+                        let mut elements = Vec::new();
                         for i in 0..k {
                             if i > 0 {
                                 self.w(", ");
                             }
+                            let e0 = self.here();
                             self.value(&el, depth + 1);
+                            elements.push((e0, self.here()));
+                        }
+                        // (an element whose type the indexer cannot compute agrees with everything)
+                        // (and a literal of one element is a list of whatever that element is)
+                        if k >= 2 && self.untyped_uses == untyped_before && self.on("list-element-sites") {
+                            for r in elements {
+                                self.p.typed_sites.push((self.cur, r, el.clone(), "list-element"));
+                            }
                         }
                         if self.rng.chance(1, 8) && self.on("trailing-comma") {
                             self.w(",");
                         }
                         self.w("]");
+                        self.span("list-literal", literal_start);
                     }
                     3 if matches!(el, Ty::Int | Ty::Str) => self.bang("!listconcat", &[ty.clone(), ty.clone()], depth),
                     4 => self.bang("!tail", &[ty.clone()], depth),
@@ -1894,6 +1907,45 @@ impl<'a> Sem<'a> {
     }
 
     fn defvar_stmt(&mut self) {
+        let any: Vec<(String, usize)> = self.defs.iter().filter(|d| !self.name_is_local(&d.name)).map(|d| (d.name.clone(), d.decl)).collect();
+        if any.len() >= 2 && self.rng.chance(1, 8) && self.on("records-of-any-class") {
+            // records need no class in common to stand in one list, or in the branches of an !if: the
+            // value is a record of no class in particular (the variable is not used again)
+            self.w("defvar ");
+            let name = self.fresh("v");
+            let d = self.declare(DeclKind::Defvar, &name, None, None, None);
+            self.tainted.insert(d);
+            self.w(" = ");
+            let st = self.here();
+            let i = self.rng.below(any.len());
+            let j = (i + 1 + self.rng.below(any.len() - 1)) % any.len();
+            if self.rng.chance(1, 2) {
+                self.p.feat.bang_ops += 1;
+                self.w("!if(");
+                self.value(&Ty::Bit, 1);
+                self.w(", ");
+                self.ident(&any[i].0, Role::Use(any[i].1));
+                self.w(", ");
+                self.ident(&any[j].0, Role::Use(any[j].1));
+                let close = self.here();
+                self.w(")");
+                self.p.bang_sites.push((self.cur, "!if".to_string(), close, 3, st));
+            } else {
+                self.w("[");
+                self.ident(&any[i].0, Role::Use(any[i].1));
+                self.w(", ");
+                self.ident(&any[j].0, Role::Use(any[j].1));
+                if self.rng.chance(1, 2) {
+                    let k = self.rng.below(any.len());
+                    self.w(", ");
+                    self.ident(&any[k].0, Role::Use(any[k].1));
+                }
+                self.w("]");
+            }
+            self.span("records-of-any-class", st);
+            self.w(";");
+            return;
+        }
         self.w("defvar ");
         let shadow = self.rng.chance(1, 6) && self.scopes.len() > 1;
         let name = if shadow {
